@@ -5,12 +5,19 @@ recording sinks; after every Handle the Write calls received (count and bytes of
 with the model.  Schedules (area `stress`, -race build): judged on the implementation side only."""
 
 
+import re
+
+_AGG = re.compile(r"ret=\d+\[")
+
+
 def _tag(line, out):
     w = line.split(" ", 2)
+    if w[0] == "logx":
+        return "errs." + w[1]
     if w[0] not in ("log", "logerr"):
         return None
-    if "ret=[" in out:
-        return "multilog-errors"
+    if _AGG.search(out):
+        return "aggregate-returned"
     if "ret=E:" in out:
         return "sink-error-returned"
     if "ret=panic" in out:
@@ -51,12 +58,15 @@ def run(ctx):
     ]
     ctx.lean(props=["Props.C13"], drivers=["drv_c13"])
     ctx.harness("./cmd/c13")
-    ctx.diff(area="log", driver="drv_c13", n={"quick": 40000, "thorough": 2400000}, stateful=True,
-             trivial=lambda l, o: l.split(" ", 1)[0] in ("new", "mnew", "mode", "hold"),
+    ctx.diff(area="log", driver="drv_c13", n={"quick": 40000, "thorough": 900000}, stateful=True,
+             trivial=lambda l, o: l.split(" ", 1)[0] in ("new", "mnew", "mode", "hold", "wg", "wa", "setlevel"),
              tagger=_tag, timeout=1500,
              theorem="C13.format_spec / one_write_per_record / derive_isolated / stack_lines_follow / "
                      "buffered_no_dup_no_tear / fanout_each_enabled_once / fanout_nil_iff_all_ok / "
                      "fanout_errors_collected / handle_errors_collected_heap / handle_keeps_child_errors / with_applies_to_all (model = spec); impl != model on this history")
+    ctx.impl_oracle("recovery", {"quick": 48, "thorough": 480}, timeout=300,
+                    label="errs.Recovery on its own: no panic escapes, the handler is called once with an error that leads "
+                          "back to the panic value, for every kind of panic value and handler")
     if ctx.harness("./cmd/c13", name="race", race=True):
         ctx.impl_oracle("stress", {"quick": 40, "thorough": 600}, name="race", timeout=1500,
                         label="schedules: whole-record writes, per-goroutine order, sink error to its caller, "
